@@ -82,6 +82,23 @@ def rring(rng, tmax=16, fmax=64, t0=0):
     return [[Fraction(t0 + 1), Fraction(8)], [Fraction(t0 + 2), Fraction(8)], [Fraction(t0 + 2), Fraction(16)]]
 
 
+def rpoly_holes(rng, t0=0):
+    """a rectangle-like shell with 1-2 triangular holes strictly inside (disjoint)"""
+    a = Fraction(t0) + dy(rng, 0, 4, 2)
+    c = dy(rng, 0, 16, 2)
+    w, h = Fraction(rng.randint(8, 16)), Fraction(rng.randint(16, 32))
+    shell = [[a, c], [a + w, c], [a + w, c + h], [a, c + h]]
+    if rng.random() < 0.5:
+        shell.append(list(shell[0]))
+    holes = []
+    k = rng.randint(1, 2)
+    for i in range(k):
+        x0 = a + 1 + i * (w / 2)
+        y0 = c + 1 + Fraction(rng.randint(0, 4))
+        holes.append([[x0, y0], [x0 + 2, y0], [x0 + 1, y0 + Fraction(rng.randint(1, 6))]])
+    return [shell] + holes
+
+
 def rline(rng, forward=None, tmax=16, fmax=64):
     n = rng.randint(2, 5)
     pts = [rpoint(rng, tmax, fmax) for _ in range(n)]
@@ -94,7 +111,7 @@ def rline(rng, forward=None, tmax=16, fmax=64):
     return pts
 
 
-def rgeom(rng: random.Random, typ: str | None = None, tmax=16, fmax=64) -> dict:
+def rgeom(rng: random.Random, typ: str | None = None, tmax=16, fmax=64, holes=False) -> dict:
     """a *valid* geometry (as accepted by the validators)"""
     typ = typ or rng.choice(TYPES)
     if typ == "TimeStamp":
@@ -108,6 +125,8 @@ def rgeom(rng: random.Random, typ: str | None = None, tmax=16, fmax=64) -> dict:
         c = rline(rng, None, tmax, fmax)
     elif typ == "Polygon":
         c = [rring(rng, tmax, fmax)]
+        if holes and rng.random() < 0.5:
+            c = rpoly_holes(rng)
         if rng.random() < 0.2:
             # a small hole near the shell's first vertex is not guaranteed inside; holes are
             # only used where the consumer tolerates them (bounds use the shell)
@@ -125,6 +144,8 @@ def rgeom(rng: random.Random, typ: str | None = None, tmax=16, fmax=64) -> dict:
         w = max(4, tmax // k)
         # parts live in separate time windows so that the multipolygon is valid (parts do not overlap)
         c = [[rring(rng, w - 1, fmax, t0=i * (w + 5))] for i in range(k)]
+        if holes and rng.random() < 0.5:
+            c = [rpoly_holes(rng, t0=i * 30) for i in range(k)]
     else:
         raise ValueError(typ)
     return {"type": typ, "coordinates": c}
